@@ -18,6 +18,7 @@ import (
 	"github.com/jdillenkofer/pithos/internal/storage/database"
 	storageOutboxEntry "github.com/jdillenkofer/pithos/internal/storage/database/repository/storageoutboxentry"
 	"github.com/jdillenkofer/pithos/internal/storage/metadatapart/metadatastore"
+	"github.com/jdillenkofer/pithos/internal/verifhook"
 	"github.com/oklog/ulid/v2"
 	"github.com/prometheus/client_golang/prometheus"
 	"go.opentelemetry.io/otel"
@@ -363,6 +364,7 @@ func (os *outboxStorage) maybeProcessOutboxEntries(ctx context.Context) {
 			return
 		}
 
+		_ = verifhook.Hit("storageoutbox.after-replay")
 		deleted, err := os.finalizeStorageOutboxEntry(ctx, entry)
 		if err != nil {
 			os.metrics.errorsCounter.Inc()
